@@ -105,6 +105,7 @@ def eval_adverb_each_index(f, a, op, backend):
     """
     if is_empty(a):
         return a
+    a = _members(a, backend)
     if is_iterable(a):
         r = [f(backend.kg_asarray([i, x])) for i, x in enumerate(a)]
         return backend.kg_asarray(r)
